@@ -12,12 +12,18 @@
 (* Option sets: brackets or none; delimiter none / the terminal "," / a     *)
 (* non-terminal that is nullable (OC -> , | <empty>) or not (CM -> ,);      *)
 (* item symbol nullable (IT -> w | <empty>) or not (IT -> w);               *)
-(* allow_final_delimiter; optional.  Context: E -> w LIST.                  *)
+(* allow_final_delimiter; optional.  Context: E -> w LIST  or  E -> w LIST OMAP. *)
 (***************************************************************************)
 EXTENDS Naturals, Sequences, FiniteSets, TLC, Json, LLGrammar
 
-Opts == { [br |-> br, delim |-> d, itemnull |-> n, afd |-> a, optional |-> o] :
-             br \in BOOLEAN, d \in {"none", "term", "ntnull", "nt"}, n \in BOOLEAN, a \in BOOLEAN, o \in BOOLEAN }
+Opts == { [br |-> br, delim |-> d, itemnull |-> n, afd |-> a, optional |-> o, second |-> s] :
+             br \in BOOLEAN, d \in {"none", "term", "ntnull", "nt"}, n \in BOOLEAN, a \in BOOLEAN, o \in BOOLEAN, s \in BOOLEAN }
+(* second: the grammar holds a second template, an optional map behind the list (E -> w LIST OMAP):                 *)
+(*   OMAP -> { } | { OMAP__KV_PAIR OMAP__ELEMENTS } | <empty>;  OMAP__ELEMENTS -> , OMAP__KV_PAIR OMAP__ELEMENTS | , | <empty> *)
+(*   OMAP__KV_PAIR -> w : w        (MapProds.complete_init / gen_productions)                                        *)
+MapExpanded == [OMAP |-> << <<"{", "}">>, <<"{", "OMAP__KV_PAIR", "OMAP__ELEMENTS", "}">>, <<>> >>,
+                OMAP__ELEMENTS |-> << <<",", "OMAP__KV_PAIR", "OMAP__ELEMENTS">>, <<",">>, <<>> >>,
+                OMAP__KV_PAIR |-> << <<"w", ":", "w">> >>]
 DelimSym(o) == CASE o.delim = "term" -> <<",">> [] o.delim = "ntnull" -> <<"OC">> [] o.delim = "nt" -> <<"CM">> [] OTHER -> <<>>
 Open(o) == IF o.br THEN <<"[">> ELSE <<>>
 Close(o) == IF o.br THEN <<"]">> ELSE <<>>
@@ -33,14 +39,14 @@ TailProdsOf(o) ==
 (* the constructor refuses two adjacent equal productions; such option sets are not used *)
 NoAdjacentDup(ps) == \A i \in 1 .. (Len(ps) - 1) : ps[i] # ps[i + 1]
 Expanded(o) ==
-  LET base == [E |-> << <<"w", "LIST">> >>, LIST |-> ListProdsOf(o),
+  LET base == [E |-> << IF o.second THEN <<"w", "LIST", "OMAP">> ELSE <<"w", "LIST">> >>, LIST |-> ListProdsOf(o),
                IT |-> IF o.itemnull THEN << <<"w">>, <<>> >> ELSE << <<"w">> >>]
       withTail == IF TailSym(o) = "LIST" THEN base ELSE base @@ [LIST__TAIL |-> TailProdsOf(o)]
       withDelim == CASE o.delim = "ntnull" -> withTail @@ [OC |-> << <<",">>, <<>> >>]
                      [] o.delim = "nt" -> withTail @@ [CM |-> << <<",">> >>]
                      [] OTHER -> withTail IN
-  withDelim
-Gram(o) == [nts |-> DOMAIN Expanded(o), terms |-> {"w", ",", "[", "]"}, start |-> "E", prods |-> Expanded(o)]
+  IF o.second THEN withDelim @@ MapExpanded ELSE withDelim
+Gram(o) == [nts |-> DOMAIN Expanded(o), terms |-> {"w", ",", "[", "]", "{", "}", ":"}, start |-> "E", prods |-> Expanded(o)]
 
 VARIABLES opt, done
 vars == <<opt, done>>
